@@ -2,7 +2,7 @@
 # regress.sh [tier]: run all claimed checks on /repo in parallel, print the summary lines
 cd /verif
 tier=${1:-quick}
-for p in C02 C03 C04 C05 C06 C07 C08 C09 C10 C11 C12 C13 C14 C15 C16 C17 C18 C19 C20; do
+for p in C01 C02 C03 C04 C05 C06 C07 C08 C09 C10 C11 C12 C13 C14 C15 C16 C17 C18 C19 C20; do
   ( OSV_SEQUENTIAL=1 /venv/bin/python -m osv check $p --tier $tier > /tmp/regress_$p.out 2>&1; echo "$p exit=$? $(grep -E '^\[C' /tmp/regress_$p.out | tail -1)" ) &
 done
 wait
